@@ -755,23 +755,26 @@ func (fc *FnCtx) appendBuiltin(cc *ssa.CallCommon, args []Value, pos token.Pos) 
 		}
 		h := st.heap[hs]
 		inner := fc.freshConst("appin_"+sortTag(hs), SArr(SInt, hs))
-		a1 := Implies(And(Le(IntLit(0), k), Lt(k, sCells)),
-			Eq(Select(inner, Add(off, k)), Select(Select(h, s.Obj()), Add(s.Off(), k))))
-		fc.assume(Term{fmt.Sprintf("(forall ((k!q Int)) %s)", a1.S), SBool})
+		// axioms are indexed by the absolute cell position so that (select inner k) is the trigger
+		pat := Select(inner, k).S
+		a1 := Implies(And(Le(off, k), Lt(k, Add(off, sCells))),
+			Eq(Select(inner, k), Select(Select(h, s.Obj()), Add(s.Off(), Sub(k, off)))))
+		fc.assume(Term{fmt.Sprintf("(forall ((k!q Int)) (! %s :pattern (%s)))", a1.S, pat), SBool})
+		base2 := Add(off, sCells)
 		if tIsStr {
-			a2 := Implies(And(Le(IntLit(0), k), Lt(k, tlen)),
-				Eq(Select(inner, Add(off, Add(sCells, k))), mk(SBV(8), "s_at", t.T, k)))
+			a2 := Implies(And(Le(base2, k), Lt(k, Add(base2, tlen))),
+				Eq(Select(inner, k), mk(SBV(8), "s_at", t.T, Sub(k, base2))))
 			if hs == SBV(8) {
-				fc.assume(Term{fmt.Sprintf("(forall ((k!q Int)) %s)", a2.S), SBool})
+				fc.assume(Term{fmt.Sprintf("(forall ((k!q Int)) (! %s :pattern (%s)))", a2.S, pat), SBool})
 			}
 		} else {
-			a2 := Implies(And(Le(IntLit(0), k), Lt(k, tCells)),
-				Eq(Select(inner, Add(off, Add(sCells, k))), Select(Select(h, t.Obj()), Add(t.Off(), k))))
-			fc.assume(Term{fmt.Sprintf("(forall ((k!q Int)) %s)", a2.S), SBool})
+			a2 := Implies(And(Le(base2, k), Lt(k, Add(base2, tCells))),
+				Eq(Select(inner, k), Select(Select(h, t.Obj()), Add(t.Off(), Sub(k, base2)))))
+			fc.assume(Term{fmt.Sprintf("(forall ((k!q Int)) (! %s :pattern (%s)))", a2.S, pat), SBool})
 		}
 		a3 := Implies(And(Not(grow), Or(Lt(k, Add(s.Off(), sCells)), Ge(k, Add(s.Off(), Mul(newLen, c))))),
 			Eq(Select(inner, k), Select(Select(h, s.Obj()), k)))
-		fc.assume(Term{fmt.Sprintf("(forall ((k!q Int)) %s)", a3.S), SBool})
+		fc.assume(Term{fmt.Sprintf("(forall ((k!q Int)) (! %s :pattern (%s)))", a3.S, pat), SBool})
 		st.heap[hs] = Store(h, obj, inner)
 	}
 	fc.commitHeaps()
@@ -811,15 +814,17 @@ func (fc *FnCtx) copyBuiltin(cc *ssa.CallCommon, args []Value, pos token.Pos) Va
 		h := st.heap[hs]
 		inner := fc.freshConst("cpin_"+sortTag(hs), SArr(SInt, hs))
 		var src Term
+		rel := Sub(k, d.Off())
 		if isStr {
-			src = mk(SBV(8), "s_at", s.T, k)
+			src = mk(SBV(8), "s_at", s.T, rel)
 		} else {
-			src = Select(Select(h, s.Obj()), Add(s.Off(), k))
+			src = Select(Select(h, s.Obj()), Add(s.Off(), rel))
 		}
-		a1 := Implies(And(Le(IntLit(0), k), Lt(k, nCells)), Eq(Select(inner, Add(d.Off(), k)), src))
+		pat := Select(inner, k).S
+		a1 := Implies(And(Le(d.Off(), k), Lt(k, Add(d.Off(), nCells))), Eq(Select(inner, k), src))
 		a2 := Implies(Or(Lt(k, d.Off()), Ge(k, Add(d.Off(), nCells))), Eq(Select(inner, k), Select(Select(h, d.Obj()), k)))
-		fc.assume(Term{fmt.Sprintf("(forall ((k!q Int)) %s)", a1.S), SBool})
-		fc.assume(Term{fmt.Sprintf("(forall ((k!q Int)) %s)", a2.S), SBool})
+		fc.assume(Term{fmt.Sprintf("(forall ((k!q Int)) (! %s :pattern (%s)))", a1.S, pat), SBool})
+		fc.assume(Term{fmt.Sprintf("(forall ((k!q Int)) (! %s :pattern (%s)))", a2.S, pat), SBool})
 		st.heap[hs] = Store(h, d.Obj(), inner)
 	}
 	fc.commitHeaps()
